@@ -1,5 +1,6 @@
 import JSight.Sim
 import JSight.SimTrailing
+import JSight.RfcGrammar
 /-!
 # C05 — A document is accepted iff it is one RFC 8259 JSON text
 
@@ -8,6 +9,10 @@ Spec: `Rfc.accepts` — an independently structured recogniser for the RFC 8259 
 (lexical state + stack of open containers), and `Sim.runP` — "run the recogniser until it
 cannot continue, accept iff a complete top-level value has been read" for the trailing mode.
 Both theorems hold for every byte string, of any length and nesting depth.
+`C05_grammar_accepted`: the recogniser (hence the scanner model) accepts every text the RFC 8259 grammar
+generates — value trees of grammar tokens with layout wherever the grammar allows `ws` (`RfcG.GValid`).
+The converse against the grammar (accepted ⟹ derivable) is not proved; `Rfc.accepts` is validated against
+`encoding/json.Valid` bounded-exhaustively by the harness (`json-exh`).
 -/
 namespace Props.C05
 open JsonScan
@@ -21,8 +26,22 @@ numbers taken maximally, whatever follows -/
 theorem C05_trailing (bs : List UInt8) : check true bs = Sim.runP Rfc.RCfg.init (bs.map classify) :=
   Sim.C05_trailing bs
 
+/-- every RFC 8259 text is accepted: bytes whose classes are the rendering of a grammar tree, with optional
+leading and trailing white space -/
+theorem C05_grammar_accepted (bs : List UInt8) (v : JA) (hv : RfcG.GValid v) (ws0 ws1 : List Cls)
+    (h0 : IsWs ws0) (h1 : IsWs ws1) (hbs : bs.map classify = ws0 ++ (v.render ++ ws1)) : check false bs = true := by
+  rw [C05_check_iff_rfc]
+  unfold Rfc.accepts
+  rw [hbs]
+  exact RfcG.grammar_accepted v hv ws0 ws1 h0 h1
+
 /-! Non-vacuity / sanity: the spec accepts and rejects what the property names. -/
 def s (x : String) : List UInt8 := x.toList.map (fun c => UInt8.ofNat c.toNat)   -- ASCII literals
+
+-- ` [true ]` is the rendering of a grammar tree
+example : check false (s " [true ]") = true :=
+  C05_grammar_accepted _ (.arr [] [([], .scalar [.lt, .lr, .lu, .le], [.sp])])
+    (by simp [RfcG.GValid, RfcG.GItems, IsWs, Cls.isWs]; exact RfcG.GTok.wtrue) [.sp] [] (by simp [IsWs, Cls.isWs]) (by simp [IsWs]) (by decide)
 
 example : Rfc.accepts (s " {\"a\": [1, 2.5e-3, \"x\\n\"], \"b\": null}\n") = true := by decide
 example : Rfc.accepts (s "1.") = false := by decide
